@@ -153,8 +153,7 @@ def run(ctx):
         # payload concatenation order
         v = resolve(st, strip(st.env.get(0)))
         pay = v[3][1] if v[0] == 'agg' and len(v[3]) > 1 else ('unknown',)
-        arr = [n for n in walk(pay) if n[0] == 'agg' and n[1] == 'array']
-        order = [unwrap_cast(x)[1] if unwrap_cast(x)[0] == 'param' else None for x in arr[0][3]] if arr else None
+        order = [unwrap_cast(x)[1] if unwrap_cast(x)[0] == 'param' else None for x in byte_parts(pay)]
         ctx.check(order == [p_ for _, p_ in PARTS], 'R15.1', 'payload:order', 'payload = lm || nt || domain || user || workstation || session key', sh.body.where(),
                   'authenticate_message concatenates the payload in parameter order %s (offsets assume %s)' % (order, [p_ for _, p_ in PARTS]))
     ctx.check(set(seen_base) == {True, False}, 'R15.1', 'base:coverage', 'both Version-present and Version-absent layouts are built', ctx.body(AUTH).where())
